@@ -313,6 +313,11 @@ class CertificateAuthConfig:
     """
 
     path_rules: list[CertificateAuthPathRule] = field(default_factory=list)
+    # File names a directory request may be answered with (the default
+    # index names of StaticFileHandler)
+    index_names: list[str] = field(
+        default_factory=lambda: ["index.gmi", "index.gemini"]
+    )
 
 
 class CertificateAuth:
@@ -391,24 +396,31 @@ class CertificateAuth:
         # Extract path from URL
         path = self._extract_path(request_url)
 
-        # Find matching rule (first match wins)
-        rule = self._find_matching_rule(path)
+        # A directory URL is answered with the directory's index file, so the
+        # request also has to satisfy the rule that protects that file
+        candidates = [path]
+        directory = path if path.endswith("/") else path + "/"
+        candidates += [directory + name for name in self.config.index_names]
 
-        if rule is None:
-            # No rule matches - allow without cert
-            return True, None
+        for candidate in candidates:
+            # Find matching rule (first match wins)
+            rule = self._find_matching_rule(candidate)
 
-        # Apply rule's requirements
-        if rule.require_cert and client_cert_fingerprint is None:
-            return False, "60 Client certificate required\r\n"
+            if rule is None:
+                # No rule matches - allow without cert
+                continue
 
-        if rule.allowed_fingerprints is not None:
-            if client_cert_fingerprint is None:
-                # Whitelist requires a cert
+            # Apply rule's requirements
+            if rule.require_cert and client_cert_fingerprint is None:
                 return False, "60 Client certificate required\r\n"
 
-            if client_cert_fingerprint not in rule.allowed_fingerprints:
-                return False, "61 Certificate not authorized\r\n"
+            if rule.allowed_fingerprints is not None:
+                if client_cert_fingerprint is None:
+                    # Whitelist requires a cert
+                    return False, "60 Client certificate required\r\n"
+
+                if client_cert_fingerprint not in rule.allowed_fingerprints:
+                    return False, "61 Certificate not authorized\r\n"
 
         return True, None
 
